@@ -375,6 +375,7 @@ def run_trip_impl(case):
             decoys = (MissionMobilityPlugin(proto, MissionMobilityConfiguration(speed=1.0, tolerance=50.0)),  # noqa: F841
                       RandomMobilityPlugin(proto, RandomMobilityConfig(x_range=(0, 0), y_range=(0, 0), z_range=(0, 0), tolerance=1e9)))
         noops = []
+        muted = []
         # the embedding code may look the callback up once and keep it (a subscriber list): taken after the plugins exist
         deliver = proto.handle_telemetry if case.get("kept_ref") else (lambda t: proto.handle_telemetry(t))
         for op in case["ops"]:
@@ -393,6 +394,11 @@ def run_trip_impl(case):
                         # when the next one begins): the chain keeps its length while its content changes
                         noops.append(lambda instance, telemetry: DispatchReturn.CONTINUE)
                         create_dispatcher(proto).register_handle_telemetry(noops[-1])
+                    if case.get("mute") and was and not muted:
+                        # ... or a filter that stays for good and keeps telemetry from the protocol's own method (INTERRUPT):
+                        # the hook of a LATER trip is registered after it, hence runs before it
+                        muted.append(lambda instance, telemetry: DispatchReturn.INTERRUPT)
+                        create_dispatcher(proto).register_handle_telemetry(muted[-1])
                 elif op[0] == "travel":
                     r = plugin.travel_to_random_waypoint()
                     c = proto.provider.cmds
